@@ -20,7 +20,7 @@ func init() {
 		ID:    "C17",
 		Level: "exploration",
 		Rule: "base rule set = 5 rules (ids 1-5, phase 2, tags, messages on some only, rule 4 a chain, a marker) over ARGS:a/b/c; directive = SecRuleRemoveById {1 id, list, range, mixed} / ByTag / ByMsg, SecRuleUpdateTargetById {1 id, list, range} x {!ARGS:k, !ARGS:/re/, ARGS:k added}, SecRuleUpdateTargetByTag, SecRuleUpdateActionById {1 id, list, range} x {deny, msg, setvar}, " +
-			"and the run-time ctl:ruleRemoveById / ByTag / ByMsg / ruleRemoveTargetById / ByTag / ByMsg placed in phase 1, before, and after the affected rule; requests = all assignments of a,b,c in {absent,x,y}. " +
+			"and the run-time ctl:ruleRemoveById / ByTag / ByMsg / ruleRemoveTargetById / ByTag / ByMsg placed in phase 1, before, and after the affected rule; requests = all assignments of a,b,c in {absent,x,y}; every ordered pair of configuration-time directives (thorough: also every triple whose first member selects by the id forms 2, 2-3 or 1 3-4) against the rule set rewritten by all of them in that order. " +
 			"Oracle: the outcome with the directive equals the outcome of the explicitly rewritten configuration (structured rewrite, not text); for ctl forms a second transaction on the same WAF that does not trigger the ctl equals the base rule set. " +
 			"distinct_nontrivial = distinct (directive, request) for which the rewritten and the base configuration give different outcomes",
 		Assumptions: []string{"the rewrite rules of go/c17 (remove = never contained; update target = target list extended; update action = disruptive replaced / msg replaced / others appended) restate the property"},
@@ -415,8 +415,9 @@ func outcome(w coraza.WAF, rq scen.Req) string {
 }
 
 type kase struct {
-	D   directive `json:"directive"`
-	Req int       `json:"req"`
+	D   directive  `json:"directive"`
+	Then []directive `json:"then,omitempty"` // further configuration-time directives applied after D, in order
+	Req int        `json:"req"`
 }
 
 func (d directive) sig() string {
@@ -474,19 +475,19 @@ func checkDirective(c *runner.Ctx, d directive, report func(sig, text string, k 
 	confB := render(d.base(), "", "")
 	wD, err := scen.Build(confD)
 	if err != nil {
-		report(d.sig()+":rejected-or-panics", "configuration with the directive does not build: "+err.Error()+"\n"+confD, kase{d, 0})
+		report(d.sig()+":rejected-or-panics", "configuration with the directive does not build: "+err.Error()+"\n"+confD, kase{D: d})
 		return
 	}
 	defer scen.Close(wD)
 	wR, err := scen.Build(confR)
 	if err != nil {
-		report("harness:rewritten-config-rejected", err.Error()+"\n"+confR, kase{d, 0})
+		report("harness:rewritten-config-rejected", err.Error()+"\n"+confR, kase{D: d})
 		return
 	}
 	defer scen.Close(wR)
 	wB, err := scen.Build(confB)
 	if err != nil {
-		report("harness:base-config-rejected", err.Error(), kase{d, 0})
+		report("harness:base-config-rejected", err.Error(), kase{D: d})
 		return
 	}
 	defer scen.Close(wB)
@@ -499,14 +500,14 @@ func checkDirective(c *runner.Ctx, d directive, report func(sig, text string, k 
 		baseOut := outcome(wB, rq)
 		c.Outcome(got)
 		if want != strings.ReplaceAll(baseOut, "", "") && stripCtl(want) != stripCtl(baseOut) {
-			b, _ := json.Marshal(kase{d, ri})
+			b, _ := json.Marshal(kase{D: d, Req: ri})
 			c.Distinct(string(b))
 			if c.WantSample() {
 				c.Sample(map[string]any{"config_with_directive": confD, "rewritten_config": confR, "request": rq.URI, "outcome": want})
 			}
 		}
 		if stripCtl(got) != stripCtl(want) {
-			report(d.sig(), fmt.Sprintf("request %s\n--- configuration with the directive:\n%s%s--- explicitly rewritten configuration:\n%s%s", rq.URI, confD, got, confR, want), kase{d, ri})
+			report(d.sig(), fmt.Sprintf("request %s\n--- configuration with the directive:\n%s%s--- explicitly rewritten configuration:\n%s%s", rq.URI, confD, got, confR, want), kase{D: d, Req: ri})
 		}
 		if d.Ctl {
 			// a second transaction on the same WAF - served by the transaction object the first one returned
@@ -518,7 +519,7 @@ func checkDirective(c *runner.Ctx, d directive, report func(sig, text string, k 
 			vrt.PoolMode = 0
 			want2 := outcome(wB, plain)
 			if stripCtl(got2) != stripCtl(want2) {
-				report(d.sig()+":leaks-into-next-transaction", fmt.Sprintf("request %s (after a transaction that executed %s)\n--- same WAF:\n%s--- base rule set:\n%s", plain.URI, d.ctlText(), got2, want2), kase{d, ri})
+				report(d.sig()+":leaks-into-next-transaction", fmt.Sprintf("request %s (after a transaction that executed %s)\n--- same WAF:\n%s--- base rule set:\n%s", plain.URI, d.ctlText(), got2, want2), kase{D: d, Req: ri})
 			}
 		}
 	}
@@ -536,12 +537,106 @@ func stripCtl(s string) string {
 	return strings.Join(out, "\n")
 }
 
+// selectsAny says whether d selects a rule of rs.
+func (d directive) selectsAny(rs []ruleD) bool {
+	for _, r := range rs {
+		if d.selects(r) {
+			return true
+		}
+	}
+	return false
+}
+
+// checkSeq applies configuration-time directives one after the other: the result must equal the rule set
+// rewritten by all of them, in that order (each directive works on what the previous ones left).
+func checkSeq(c *runner.Ctx, ds []directive, report func(sig, text string, k kase)) {
+	rew := base()
+	text := ""
+	var sigs []string
+	for i, d := range ds {
+		if i > 0 && !d.selectsAny(rew) {
+			// what a directive that selects nothing does (error or warning) is C16/C07's ground
+			c.Count("sequences_with_a_member_that_selects_nothing", 1)
+			return
+		}
+		rew = d.rewrite(rew, 0)
+		text += d.text()
+		sigs = append(sigs, d.sig())
+	}
+	k := kase{D: ds[0], Then: ds[1:]}
+	confD := render(base(), "", text)
+	confR := render(rew, "", "")
+	sig := "sequence:" + strings.Join(sigs, "+")
+	wD, err := scen.Build(confD)
+	if err != nil {
+		report(sig+":rejected-or-panics", "configuration with the directives does not build: "+err.Error()+"\n"+confD, k)
+		return
+	}
+	defer scen.Close(wD)
+	wR, err := scen.Build(confR)
+	if err != nil {
+		report("harness:rewritten-config-rejected", err.Error()+"\n"+confR, k)
+		return
+	}
+	defer scen.Close(wR)
+	for ri, rq := range requests() {
+		c.Count("evaluations", 1)
+		got, want := outcome(wD, rq), outcome(wR, rq)
+		c.Outcome(got)
+		if ri == 0 {
+			b, _ := json.Marshal(k)
+			c.Distinct(string(b))
+		}
+		if got != want {
+			k.Req = ri
+			report(sig, fmt.Sprintf("request %s\n--- configuration with the directives:\n%s%s--- explicitly rewritten configuration:\n%s%s", rq.URI, confD, got, confR, want), k)
+		}
+	}
+}
+
+func configTimeDirectives() []directive {
+	var out []directive
+	for _, d := range directives(true) {
+		if !d.Ctl && !d.SkipBase && !d.SkipAfterBase {
+			out = append(out, d)
+		}
+	}
+	return out
+}
+
 func run(c *runner.Ctx) {
-	for i, d := range directives(c.Thorough()) {
-		if !c.Mine(i) || c.Expired() {
+	idx := 0
+	for _, d := range directives(c.Thorough()) {
+		idx++
+		if !c.Mine(idx) || c.Expired() {
 			continue
 		}
 		checkDirective(c, d, func(sig, text string, k kase) { c.Violation(sig, text, k) })
+	}
+	// every ordered pair of configuration-time directives; thorough: also every triple whose first member
+	// selects by the id forms "2", "2-3" or "1 3-4" (the sets later members overlap with most)
+	cts := configTimeDirectives()
+	for _, d1 := range cts {
+		for _, d2 := range cts {
+			idx++
+			if c.Mine(idx) && !c.Expired() {
+				c.Count("pairs", 1)
+				checkSeq(c, []directive{d1, d2}, func(sig, text string, k kase) { c.Violation(sig, text, k) })
+			}
+			if !c.Thorough() || !(d1.IDs == "2" || d1.IDs == "2-3" || d1.IDs == "1 3-4") {
+				continue
+			}
+			for _, d3 := range cts {
+				idx++
+				if c.Mine(idx) && !c.Expired() {
+					c.Count("triples", 1)
+					checkSeq(c, []directive{d1, d2, d3}, func(sig, text string, k kase) { c.Violation(sig, text, k) })
+				}
+			}
+		}
+	}
+	if c.Expired() {
+		c.Incomplete("sequences of directives cut by the deadline")
 	}
 }
 
@@ -555,6 +650,16 @@ func replay(raw json.RawMessage) (bool, string) {
 	var sb strings.Builder
 	viol := false
 	rc := runner.NewCtxForReplay()
+	if len(k.Then) > 0 {
+		checkSeq(rc, append([]directive{k.D}, k.Then...), func(sig, text string, kk kase) {
+			if kk.Req != k.Req {
+				return
+			}
+			viol = true
+			fmt.Fprintf(&sb, "VIOLATED %s\n%s\n", sig, text)
+		})
+		return viol, sb.String()
+	}
 	checkDirective(rc, k.D, func(sig, text string, kk kase) {
 		if kk.Req != k.Req {
 			return
